@@ -41,6 +41,7 @@ def gen_family(rng, n_roots=(1, 3), n_cond=(2, 8), n_rdm=(1, 4)):
     measure = rng.pick(['euclidean', None, 'corr'])
     rtyp = rng.pick(['int', 'str', 'float'])
     fneg = rng.chance(0.2)       # some negative dissimilarities (family-wide)
+    fzero = rng.chance(0.15)     # some exact zeros between different conditions (family-wide)
     fdtype = rng.pick(['float64', 'float64', 'float64', 'float64', 'int64', 'float32'])     # dtype of the stacks handed to the constructor
     styp = rng.pick(['str', 'str', 'int', 'bigint', 'tiny'])     # object-level descriptor values incl. falsy ones ('' / 0), one type per family
     # (numbers that differ in the tenth digit -- acquisition ids, time stamps -- or far below one are different values)
@@ -67,6 +68,8 @@ def gen_family(rng, n_roots=(1, 3), n_cond=(2, 8), n_rdm=(1, 4)):
             spec['dtype'] = rdtype
         if fneg:
             spec['neg'] = True
+        if fzero:
+            spec['zeros'] = True
         if rng.chance(0.25) and nc >= 4 and rdtype != 'int64':
             i, j = sorted(rng.sample(range(nc), 2))
             spec['nan_cells'].append([rng.randrange(nr), i, j])
